@@ -4,7 +4,7 @@ import json, os, re, glob
 V = os.path.dirname(os.path.dirname(os.path.abspath(__file__)))
 rows = {}
 for line in open(os.path.join(V, ".build", "matrix.log")):
-    m = re.match(r"^(C\d\d-[AB]):(.*)$", line.strip())
+    m = re.match(r"^(C\d\d-[A-Z]):(.*)$", line.strip())
     if not m:
         continue
     name, rest = m.group(1), m.group(2)
